@@ -240,8 +240,10 @@ static bool build_case(uint64_t seed, Case &c, std::string &skip) {
         G.add("c05.variant.indefinite", vs.indefinite); G.add("c05.variant.longform", vs.longform); G.add("c05.variant.segmented", vs.segmented); G.add("c05.variant.alternative_primitive", vs.alternative); G.add("c05.variant.set_reordered", vs.reordered); G.add("c05.variant.unknown_extension", vs.unknown_ext);
     }
     if(c.sy == SY_XER || c.sy == SY_CXER) xer_strip_trailing_ws(E);
-    if(c.sy == SY_XER && rvar.chance(1, 2)) {
-        Bytes var; XerVariantStats xs; xer_variant(E, rvar, var, xs);
+    // a top-level primitive type has no saved context to resume from: what is in front of its opening tag matters most there
+    const bool top_prim = !kind_constructed(kind_of(c.td));
+    if(c.sy == SY_XER && (top_prim || rvar.chance(1, 2))) {
+        Bytes var; XerVariantStats xs; xer_variant(E, rvar, var, xs, top_prim);
         E = var; c.head.set("xer_variant", "1");
         G.add("c05.variant.xer_whitespace", xs.whitespace); G.add("c05.variant.xer_comments", xs.comments); G.add("c05.variant.xer_emptytags", xs.emptytags); G.add("c05.variant.xer_charrefs", xs.charrefs);
     }
